@@ -570,7 +570,19 @@ fn random_any_config(rng: &mut Rng) -> config::Encoder {
 fn c19_roundtrip(ctx: &Ctx, sub: &'static str, n: u64, out: &mut Outcome) {
     run_cases(ctx, sub, n, out, |idx, out| {
         let mut rng = Rng::for_case(ctx.seed, &format!("C19.{sub}"), idx);
-        let c = if idx == 0 { config::Encoder::default() } else { random_any_config(&mut rng) };
+        let c = if sub == "alphabits" {
+            // only the window parameter varies: any f32 bit pattern inside [0, 1] (uniform over the
+            // patterns, so tiny exponents are as likely as values near 1); index 0 is the one value
+            // known not to survive the text round trip (known_findings.txt)
+            let mut c = config::Encoder::default();
+            let bits = if idx == 0 { 0x15AE_43FD } else { (rng.next_u64() % 0x3F80_0001) as u32 };
+            c.subframe_coding.qlpc.window = Window::Tukey { alpha: f32::from_bits(bits) };
+            c
+        } else if idx == 0 {
+            config::Encoder::default()
+        } else {
+            random_any_config(&mut rng)
+        };
         let rp = || rpj(ctx, sub, idx, json!({"config": format!("{c:?}")}));
         out.evaluations += 1;
         let text = match catch(|| toml::to_string(&c)) {
@@ -600,7 +612,13 @@ fn c19_roundtrip(ctx: &Ctx, sub: &'static str, n: u64, out: &mut Outcome) {
         let nan = matches!(c.subframe_coding.qlpc.window, Window::Tukey { alpha } if alpha.is_nan());
         if !nan {
             if let Err(d) = cfg_eq(&c, &back) {
-                out.violation("C19|roundtrip-differs", format!("{d}; document:\n{text}"), rp());
+                // a window parameter that changes in the text round trip is named by its bit
+                // pattern: one such value is a recorded finding, any other one is a new violation
+                let sig = match (&c.subframe_coding.qlpc.window, &back.subframe_coding.qlpc.window) {
+                    (Window::Tukey { alpha: a }, Window::Tukey { alpha: b }) if a.to_bits() != b.to_bits() => format!("C19|roundtrip-differs|alpha-bits=0x{:08x}", a.to_bits()),
+                    _ => "C19|roundtrip-differs".to_string(),
+                };
+                out.violation(sig, format!("{d}; document:\n{text}"), rp());
             }
         } else {
             out.count("nan_alpha_roundtrips");
@@ -708,6 +726,7 @@ pub fn run_c19(ctx: &Ctx) -> i32 {
     // (set while no harness thread runs; `run_cases` starts and joins its own threads)
     std::env::set_var("FLACENC_WORKERS", "3");
     c19_roundtrip(ctx, "roundtrip_env", n / 3, &mut out);
+    c19_roundtrip(ctx, "alphabits", ctx.tier.pick(30_000, 3_000_000), &mut out);
     std::env::remove_var("FLACENC_WORKERS");
     // the documented example of the module docs and the empty document
     run_cases(ctx, "documents", 2, &mut out, |idx, out| {
